@@ -97,6 +97,9 @@ func expandJobs(r HarnessRun, tier string) []job {
 		jobs[0].Bounds[k] = v
 	}
 	for _, sd := range r.Split {
+		if len(jobs) == 0 {
+			break
+		}
 		n := sd.Count(jobs[0].Bounds)
 		var next []job
 		for _, j := range jobs {
@@ -136,6 +139,7 @@ func cmdCheck(args []string) int {
 	only := fs.String("only", "", "run only harnesses containing this substring")
 	workers := fs.Int("j", 16, "parallel workers")
 	noReplay := fs.Bool("no-replay", false, "skip native replays (diagnosis only; never exit 0)")
+	countOnly := fs.Bool("count-jobs", false, "print the number of jobs per harness run and exit")
 	fs.Parse(args)
 	if t := os.Getenv("VERIF_TIER"); t == "quick" || t == "thorough" {
 		if !flagSet(fs, "tier") {
@@ -147,6 +151,19 @@ func cmdCheck(args []string) int {
 	if !ok {
 		fmt.Fprintln(os.Stderr, "unknown property", *propID)
 		return 2
+	}
+	if *countOnly {
+		total := 0
+		for _, r := range prop.Runs {
+			if *tier == "quick" && r.Quick["quick_skip"] == 1 {
+				continue
+			}
+			n := len(expandJobs(r, *tier))
+			total += n
+			fmt.Printf("%s %s %s: %d jobs\n", *propID, *tier, r.Name, n)
+		}
+		fmt.Printf("%s %s total: %d jobs\n", *propID, *tier, total)
+		return 0
 	}
 	t0 := time.Now()
 	outDir := filepath.Join(*verif, "out", *propID)
